@@ -138,6 +138,10 @@ func TestC16(t *testing.T) {
 			if many && rapid.Bool().Draw(rt, "cancellate") {
 				cancelAt = rapid.IntRange(400, 20000).Draw(rt, "cancelstep3")
 			}
+			if healQueue && cmode == "heal" {
+				// after the validator is through, while the (slow) healer still has most files to do
+				cancelAt = rapid.IntRange(3000, 40000).Draw(rt, "cancelstep6")
+			}
 		}
 		cancelAfterWounds := -1
 		if cmode == "printer" && rapid.Bool().Draw(rt, "cancelafterwounds") {
@@ -152,7 +156,8 @@ func TestC16(t *testing.T) {
 		if rapid.IntRange(0, 3).Draw(rt, "shuffledirs") == 0 {
 			shuffleDirs(si, rapid.Uint64().Draw(rt, "shuffleseed"))
 		}
-		target := filepath.Join(dir, "target")
+		// (the directory's own name is nobody's business: percent signs, spaces, colons)
+		target := filepath.Join(dir, rapid.SampledFrom([]string{"target", "target", "target", "100% Orange Juice", "50%", "1:x y", "a#b?c"}).Draw(rt, "targetname"))
 		Must(damaged.Materialize(target), "materialize damaged")
 		countFaults(applied)
 		zipPath := filepath.Join(dir, "build.zip")
@@ -269,6 +274,19 @@ func TestC16(t *testing.T) {
 		if cmode == "failfast" && !differs && !didCancel && verr != nil {
 			Violation(rt, "C16/valid-rejected", "fail-fast validation of a valid directory without interruption returned %v", verr)
 			return
+		}
+		// "a clean verdict is never caused by interruption": whichever consumer is used, nil together
+		// with "no wounds seen" for a directory that differs is a clean verdict
+		if (cmode == "woundsfile" || cmode == "printer") && verr == nil && differs && didCancel && !vctx.WoundsConsumer.HasWounds() {
+			Violation(rt, "C16/clean-verdict-by-interruption", "Validate (%s) was cancelled, returned nil and its consumer reports no wounds, although the directory differs from the signed build (%s)", cmode, what)
+			return
+		}
+		if cmode == "heal" && verr == nil && differs && !priorFail {
+			// nil from a healing run says the directory is healed - cancelled or not
+			if d := signed.Diff(MustSnapshot(target).Tree); d != "" {
+				Violation(rt, "C16/healing-reported-done", "Validate with a healer returned nil (cancelled: %v) but the directory still differs from the signed build: %s (%s)", didCancel, d, what)
+				return
+			}
 		}
 		Ev.ProbeIf(s.Leaked, "goroutines_left_blocked_after_return")
 		Ev.ProbeIf(many, "more_wounds_than_channel_slots")
